@@ -47,6 +47,12 @@ func authDictionary(pw string) []string {
 	for i := 1; i < len(pw); i++ {
 		d = append(d, pw[:i])
 	}
+	// the password without its first and/or last character (what is inside quotation marks or brackets), and wrapped
+	// in quotation marks
+	if len(pw) > 2 {
+		d = append(d, pw[1:len(pw)-1], pw[1:])
+	}
+	d = append(d, "\""+pw+"\"", "'"+pw+"'")
 	return d
 }
 
@@ -218,7 +224,7 @@ func (ac *authConn) modelAt(idx int, o *Outcome) (authorized bool, db int, cfg m
 func runC08(t *testing.T, tape *sim.Tape, tier string) *Outcome {
 	o := &Outcome{}
 	cl := newCluster(tape, o)
-	pws := []string{"password", "s3cr3t", "P", "pass word", "päss", "a\x00b", "ops:s3cret", "k=v|w", "dir/sub/leaf"}
+	pws := []string{"password", "s3cr3t", "P", "pass word", "päss", "a\x00b", "ops:s3cret", "k=v|w", "dir/sub/leaf", "\"s3cret\"", "'quoted pw'", "(paren)", "[br]"}
 	pw := pws[tape.Draw(len(pws), "pw")]
 	d := &wl.Double{}
 	cl.useServer(d)
@@ -371,12 +377,31 @@ func runC08(t *testing.T, tape *sim.Tape, tier string) *Outcome {
 	if tier == "thorough" {
 		maxReq = 16
 	}
+	// one run in sixteen: somebody guesses passwords on the first connection (10..14 refused AUTH commands in a row);
+	// whatever a connection does, the others authenticate with the exact password as before
+	guessing := 0
+	if tape.Draw(16, "guessing") == 15 {
+		guessing = 10 + tape.Draw(5, "guesses")
+		if nconn < 2 {
+			nconn = 2
+		}
+		o.stat("runs_with_password_guessing_on_one_connection", 1)
+	}
 	for j := 0; j < nconn; j++ {
 		n := 1 + tape.Draw(maxReq, "nreq")
 		ac := &authConn{}
 		var items [][]byte
+		if j == 0 && guessing > 0 {
+			n += guessing
+		}
 		for i := 0; i < n; i++ {
 			r := genAuthReq(tape, pw, j, i)
+			if j == 0 && i < guessing {
+				r = authReq{Select: -1, IsAuth: true, Args: []resp.Value{resp.Bs("AUTH"), resp.Bs(fmt.Sprintf("guess-%d", i))}}
+			}
+			if j == 1 && guessing > 0 && i == 0 {
+				r = authReq{Select: -1, IsAuth: true, Exact: true, Args: []resp.Value{resp.Bs("AUTH"), resp.Bs(pw)}}
+			}
 			ac.reqs = append(ac.reqs, r)
 			if tape.Draw(8, "nested") == 7 {
 				// the same request framed as an array nested in a one- or two-element array (the server executes the inner one)
@@ -498,7 +523,7 @@ func init() {
 	register(&Check{
 		ID: "C08", Bubble: true, Run: runC08,
 		Runs:   map[string]int{"quick": 30000, "thorough": 1000000},
-		Rule:   "a case is one run of the full server with a required password (set before Start, or by Restart after one to three earlier generations each without password, with another password - which then is one of the wrong candidates - or already with the final one) and 1..3 connections (in a quarter of the runs the TLS port is open too and each connection goes through it with probability 1/2, as a real crypto/tls client with an accepted certificate; in half of those runs the TLS clients share a session cache and connect one after the other, so later ones resume) each sending 1..8 (thorough ..16) requests over {AUTH with the exact password, with each dictionary candidate ('' , prefixes, extension, case swap, NUL/CRLF/space variants, doubled, periodic or padded continuations whose length equals the real one modulo 2^8), null/missing argument, two-argument forms (also the password split over user name and password, around its separator characters), SELECT, CONFIG SET/GET, PING/ECHO, data commands} under a seeded request- and byte-granularity interleaving; in one run in eight of the others the application has also registered a password authenticator of its own for the same password; a per-connection authorization model is checked inside every handler call and over every reply; distinct = distinct event-log hashes; all runs non-trivial",
+		Rule:   "a case is one run of the full server with a required password (set before Start, or by Restart after one to three earlier generations each without password, with another password - which then is one of the wrong candidates - or already with the final one) and 1..3 connections (in a quarter of the runs the TLS port is open too and each connection goes through it with probability 1/2, as a real crypto/tls client with an accepted certificate; in half of those runs the TLS clients share a session cache and connect one after the other, so later ones resume) each sending 1..8 (thorough ..16) requests over {AUTH with the exact password, with each dictionary candidate ('' , prefixes, extension, case swap, NUL/CRLF/space variants, doubled, periodic or padded continuations whose length equals the real one modulo 2^8), null/missing argument, two-argument forms (also the password split over user name and password, around its separator characters), SELECT, CONFIG SET/GET, PING/ECHO, data commands} under a seeded request- and byte-granularity interleaving; in one run in eight of the others the application has also registered a password authenticator of its own for the same password; one run in sixteen begins with 10..14 refused AUTH commands in a row on the first connection while the second begins with the exact password; a per-connection authorization model is checked inside every handler call and over every reply; distinct = distinct event-log hashes; all runs non-trivial",
 		Real:   []string{"redis.Server Start (authenticator registration), accept loop, connection goroutines, AUTH executor, Server.Auth, auth.AuthManager, ClearTextPasswordAuthenticator, gate in executeCommand"},
 		Stub:   []string{"network: simulated", "user command handler: recording double (parks at entry)"},
 		Assume: []string{"two-argument AUTH with user '' or 'default' and the exact password may succeed or fail", "QUIT before authorization is not generated"},
